@@ -161,3 +161,64 @@ Qed.
 
 Lemma dist_lt n g k : (g < n)%nat -> (k < n)%nat -> (dist n g k < n)%nat.
 Proof. intros; unfold dist; destruct (Nat.leb_spec g k); lia. Qed.
+
+(* k is the owner after some prefix of the trace, unless it is never granted *)
+Lemma granted_at_prefix c k : forall is g, never_granted c g is k = false ->
+  exists t, (t <= length is)%nat /\ state_after c g (firstn t is) = k.
+Proof.
+  induction is as [|i is IH]; intros g Hn; simpl in Hn.
+  - rewrite andb_true_r in Hn. apply negb_false_iff, Nat.eqb_eq in Hn.
+    exists 0%nat. split; [simpl; lia | exact Hn].
+  - destruct (Nat.eqb g k) eqn:E.
+    + apply Nat.eqb_eq in E. exists 0%nat. split; [simpl; lia | exact E].
+    + simpl in Hn. destruct (IH _ Hn) as (t & Ht & Hs).
+      exists (S t). split; [simpl; lia | exact Hs].
+Qed.
+
+(* the positive reading of bounded_wait: N-1 releases while k keeps requesting are enough *)
+Lemma served_within c k : (k < nintr c)%nat ->
+  forall is g, (g < nintr c)%nat ->
+  (forall i, In i is -> req i k = true) ->
+  (nintr c - 1 <= releases c g is)%nat ->
+  exists t, (t <= length is)%nat /\ state_after c g (firstn t is) = k.
+Proof.
+  intros Hk is g Hg Hreq Hrel. apply granted_at_prefix.
+  destruct (never_granted c g is k) eqn:E; [|reflexivity].
+  pose proof (bounded_wait c k Hk is g Hg Hreq E).
+  pose proof (dist_lt (nintr c) g k Hg Hk). lia.
+Qed.
+
+(* releases of a prefix: the count is monotone along the trace *)
+Lemma releases_app c : forall is1 is2 g,
+  releases c g (is1 ++ is2) = (releases c g is1 + releases c (state_after c g is1) is2)%nat.
+Proof.
+  induction is1 as [|i is1 IH]; intros is2 g; simpl; [reflexivity|].
+  rewrite IH. lia.
+Qed.
+
+(* sharper: k owns the bus before more than dist(g,k) releases have happened - the owners between g and k in
+   cyclic order are the only ones that can be served first, each at most once *)
+Lemma served_by_release c k : (k < nintr c)%nat ->
+  forall is g, (g < nintr c)%nat ->
+  (forall i, In i is -> req i k = true) ->
+  (dist (nintr c) g k <= releases c g is)%nat ->
+  exists t, (t <= length is)%nat /\ state_after c g (firstn t is) = k /\
+            (releases c g (firstn t is) <= dist (nintr c) g k)%nat.
+Proof.
+  intros Hk. induction is as [|i is IH]; intros g Hg Hreq Hrel.
+  - simpl in Hrel. exists 0%nat. simpl. repeat split; try lia.
+    unfold dist in Hrel. destruct (Nat.leb_spec g k); lia.
+  - destruct (Nat.eq_dec g k) as [->|Hne].
+    + exists 0%nat. simpl. repeat split; lia.
+    + simpl in Hrel. assert (Hlt := next_lt c g i Hg).
+      assert (Hreq' : forall j, In j is -> req j k = true) by (intros j Hj; apply Hreq; right; exact Hj).
+      destruct (bus_busy c g i) eqn:Eb.
+      * pose proof (no_preemption _ _ _ Eb) as Hnp. rewrite Hnp in *.
+        destruct (IH g Hg Hreq') as (t & Ht & Hs & Hr); [lia|].
+        exists (S t). simpl. rewrite Eb, Hnp. repeat split; try lia; auto.
+      * pose proof (next_owner_exact _ _ _ Hg Eb) as Hne'.
+        pose proof (rr_next_closer (nintr c) (req i) g k Hg Hk Hne (Hreq i (or_introl eq_refl))) as Hc.
+        rewrite <- Hne' in Hc.
+        destruct (IH (next c g i) Hlt Hreq') as (t & Ht & Hs & Hr); [lia|].
+        exists (S t). simpl. rewrite Eb. repeat split; try lia; auto.
+Qed.
